@@ -30,6 +30,9 @@ def run(tier, seed):
     rep = Report(PID, tier, seed, "proof")
     po = proof_obligations("WowVerif.Thm.C05", [])
     add_proof_failures(rep, po)
+    po_b = proof_obligations("WowVerif.Thm.C05b")      # enc_session: encrypted sessions of message VALUES (cipher law + framing + body codec)
+    add_proof_failures(rep, po_b)
+    po = dict(po, theorems=dict(po["theorems"], **po_b["theorems"]), obligations=po["obligations"] + po_b["obligations"], discharged=po["discharged"] + po_b["discharged"])
     rc, out, har = harness_build("world")
     if rc != 0:
         rep.violation("C05/harness-build", "harness does not build against /repo", {"log": out[-3000:]}, no_input=True)
